@@ -294,7 +294,7 @@ type consOut struct {
 
 func (w *World) opKeyConstruct() {
 	c := &consOut{}
-	kind := w.t.Choose("ops", "kc.kind", 11)
+	kind := w.t.Choose("ops", "kc.kind", 13)
 	switch kind {
 	case 0, 5: // from private-key bytes
 		src, canonical := w.genScalarBytes("kc.priv")
@@ -478,6 +478,54 @@ func (w *World) opKeyConstruct() {
 			k := bitcoin.NewSchnorrPublicKeyFromECDSA(w.keys[src].pub)
 			if k != nil {
 				c.k = &keyEntry{kind: "spub", how: "NewSchnorrPublicKeyFromECDSA", spub: k}
+			}
+		})
+	case 11: // recovered from a signature made by a private key of the pool
+		privs := w.keysOfKind("priv")
+		if len(privs) == 0 {
+			w.r.Hist("%d (no private key to sign with)", w.step)
+			return
+		}
+		src := privs[w.t.Choose("ops", "kc.from", len(privs))]
+		digest := append([]byte(nil), fixedDigest...)
+		digest[31] = byte(w.t.Choose("ops", "kc.rdigest", 256))
+		var r, sg *secp256k1.Scalar
+		var v byte
+		var serr error
+		po := protect(func() { r, sg, v, serr = w.keys[src].priv.SignRaw(secec.RFC6979SHA256(), digest) })
+		if po.panicked || serr != nil {
+			w.r.Hist("%d (key%d cannot sign: %v)", w.step, src, serr)
+			return
+		}
+		switch w.t.Choose("ops", "kc.rv", 6) {
+		case 4:
+			v ^= 1 // some other key (or an error): still a valid object or none
+		case 5:
+			v += 4
+			c.mustFail = "recovery id out of range"
+		}
+		c.desc = fmt.Sprintf("RecoverPublicKey(%x,r=%x,s=%x,v=%d) [signed by key%d]", digest, r.Bytes(), sg.Bytes(), v, src)
+		c.po = protect(func() {
+			k, err := secec.RecoverPublicKey(digest, r, sg, v)
+			c.err = err
+			if k != nil {
+				c.k = &keyEntry{kind: "pub", how: "RecoverPublicKey", pub: k}
+			}
+		})
+	case 12: // crafted so that the recovered point is the point at infinity: s*R = e*G
+		e := big.NewInt(int64(1 + w.t.Choose("ops", "kc.re", 5000)))
+		bigR := ref.BaseMul(e)
+		digest := ref.I2OSP32(e)
+		r := scalarFromInt(ref.ModN(bigR.X))
+		sg := scalarFromInt(big.NewInt(1))
+		v := byte(bigR.Y.Bit(0))
+		c.mustFail = "recovered point is the point at infinity"
+		c.desc = fmt.Sprintf("RecoverPublicKey(%x,r=x(%d*G),s=1,v=%d) [Q = infinity]", digest, e, v)
+		c.po = protect(func() {
+			k, err := secec.RecoverPublicKey(digest, r, sg, v)
+			c.err = err
+			if k != nil {
+				c.k = &keyEntry{kind: "pub", how: "RecoverPublicKey(crafted)", pub: k}
 			}
 		})
 	case 10: // the public half of a private key, as its own entry
